@@ -183,7 +183,10 @@ def gen_definition(rng, fam):
                         writers.append(var)
                     else:
                         var = rng.choice(["x", "y", "z", "dv", "d"])
-                    if var == "d":
+                    if rng.random() < fam.get("p_pub_dict", 0.0):
+                        # dict values under one variable, published again and again: merged key by key downstream
+                        pubs.append({"dv": {"k_%s_%d" % (t, len(nxt)): token(t)}})
+                    elif var == "d":
                         # the variable that concurrency / delay / retry count expressions read, changed on the way
                         pubs.append({var: rng.choice([2, 3, 0])})
                     else:
